@@ -358,6 +358,17 @@ def onecopy(ctx: Any) -> List[Ob]:
             obs.append(ob('C20.ONECOPY', f, k, f'a history key ({how}) that is not the question itself is built from lower-cased text and numbers only', not bad, '; '.join(bad)[:300]))
     if n_keys < 2:
         raise AnalysisError(f'anchor vanished: keyed accesses to QuestionHistory._history (found {n_keys})')
+    # `the same record ... for duplicate removal in replies`: the routines that take duplicates out of what is sent decide by
+    # identity alone (membership, pop by key, ==) -- they neither read a TTL / creation time / flush bit nor go through the
+    # known-answer predicates, which compare TTLs (a goodbye copy, TTL 0, must still purge the queued full-TTL copy)
+    dedupers = [
+        ctx.prog.func('zeroconf._handlers.multicast_outgoing_queue.MulticastOutgoingQueue._remove_answers_from_queue'),
+        ctx.prog.func('zeroconf._handlers.answers._add_answers_additionals'),
+    ]
+    for d_ in dedupers:
+        reads = sorted({x.attr for x in ast.walk(d_.node) if isinstance(x, ast.Attribute) and x.attr in ('ttl', 'created', 'unique') and isinstance(x.ctx, ast.Load)})
+        preds = sorted({call_name(c) for c in ast.walk(d_.node) if isinstance(c, ast.Call) and call_name(c) in ('suppresses', 'suppressed_by', '_suppressed_by_answer', 'is_stale', 'is_expired', 'is_recent', 'get_remaining_ttl', 'DNSRRSet')})
+        obs.append(ob('C20.ONECOPY', d_, f'{d_.name}: duplicates by identity', 'duplicates are taken out of a reply by record identity alone (no TTL, creation time or flush bit is consulted)', not reads and not preds, f'reads {reads}; predicates {preds}'))
     return obs
 
 
